@@ -146,12 +146,20 @@ theorem mpc_line_physical_partial (base d2r : ℚ) (d : BrRec ℚ) (hb : base = 
   unfold importBranch lineV zSys ySys
   split <;> simp [lit1, lit100]
 
-/-- the tap/phase reading of a branch record: ratio 0 means 1, angle in degrees -/
+/-- the tap/phase reading of a branch record is the physical one of the format: ratio 0 means 1, and the shift
+angle (degrees) applies whatever the ratio.  (On the pinned tree a record with ratio 0 lost its shift:
+`known_findings.json`, `mpc-zero-ratio-drops-shift`, fixed.) -/
 theorem mpc_line_tap (d2r : ℚ) (d : BrRec ℚ) :
     (importBranch d2r d).tap = (if d.ratio = 0 then 1 else d.ratio) ∧
-    (importBranch d2r d).phi = (if d.ratio = 0 then 0 else d.angle * d2r) := by
+    (importBranch d2r d).phi = d.angle * d2r := by
   simp only [importBranch, isLine, lit0, lit1, Bool.or_eq_true, Bool.and_eq_true, beq_iff_eq]
   split_ifs <;> simp_all
+
+/-- witness for the repaired case: ratio 0 with a shift of 5 (degrees, `d2r = 1` here) is tap 1 with that shift -/
+theorem mpc_zero_ratio_keeps_shift :
+    (importBranch (1 : ℚ) ⟨1, 2, 1/100, 1/10, 0, 0, 0, 0, 0, 5, 1⟩).tap = 1 ∧
+    (importBranch (1 : ℚ) ⟨1, 2, 1/100, 1/10, 0, 0, 0, 0, 0, 5, 1⟩).phi = 5 := by
+  unfold importBranch isLine; norm_num
 
 theorem mpc_base50_line_rescaled :
     (lineV 50 (importBranch (1 : ℚ) ⟨1, 2, 1/100, 1/10, 1/50, 0, 0, 0, 0, 0, 1⟩)).r = 1/200 ∧
@@ -194,12 +202,13 @@ theorem mpc_branch_roundtrip_partial (base d2r r2d : ℚ) (l : Line ℚ) (hb : b
   intro l'
   have hphi : l.phi * r2d * d2r = l.phi := by rw [mul_assoc, hd, mul_one]
   simp only [l', importBranch, exportLine, isLine, lit0, lit1, Bool.or_eq_true, Bool.and_eq_true, beq_iff_eq]
-  split_ifs with hc
-  · rcases hc with hc | ⟨h1, h2⟩
-    · exact absurd hc ht
-    · have hp : l.phi = 0 := by rcases mul_eq_zero.mp h2 with h | h; exact h; exact absurd h hr
-      simp [lineV, zSys, ySys, h1, hp, lit1, lit100]
-  · simp [lineV, zSys, ySys, lit1, lit100, hphi]
+  split_ifs with hc h0
+  · obtain ⟨h1, h2⟩ := hc
+    have hp : l.phi = 0 := by rcases mul_eq_zero.mp h2 with h | h; exact h; exact absurd h hr
+    rcases h1 with h1 | h1
+    · exact absurd h1 ht
+    · simp [lineV, zSys, ySys, h1, hp, lit1, lit100]
+  · simp [lineV, zSys, ySys, lit1, lit100, hphi, ht]
 
 /-- **Total connected load at every bus survives export → import** when each bus carries at most one load
 and every load is connected.  Both hypotheses are needed: `mpc_two_loads_last_wins`, `mpc_offline_load_exported`. -/
